@@ -57,6 +57,29 @@ NilX   == TStruct(<<F(TPtr(Inner, "s")), F(TPtr(U64, "l"))>>)
 PtrS   == TStruct(<<F(TPtr(U64, "no")), F(TPtr(Inner, "no"))>>)
 Rows   == TSlice(Inner)
 ArrU   == TLArr(2, U64)
+\* pointers to every kind, in every position.  NilKind (RLPTyped) says which empty value a nil
+\* pointer is written as: 0x80 for *bool, *uintN, *big.Int, *string, *[N]byte, *[]byte; 0xC0 for
+\* a pointer to a struct or to a list; a tag overrides it - except on *big.Int, which has its own
+\* reader / writer that ignore the tags (BigP: the same schema in all positions).
+PtrKinds(nk) == <<F(TPtr(TBool, nk)), F(TPtr(U8, nk)), F(TPtr(U16, nk)), F(TPtr(U32, nk)), F(TPtr(U64, nk)), F(PBig),
+                  F(TPtr(TBytes, nk)), F(TPtr(TArr(2), nk)), F(TPtr(TBytes, nk)), F(TPtr(Inner, nk)), F(TPtr(TSlice(U64), nk))>>
+PtrPlain == TStruct(PtrKinds("no"))
+\* rlp:"nil": the default kind of the element
+PtrNil   == TStruct(<<F(TPtr(TBool, "s")), F(TPtr(U8, "s")), F(TPtr(U16, "s")), F(TPtr(U32, "s")), F(TPtr(U64, "s")), F(PBig),
+                      F(TPtr(TBytes, "s")), F(TPtr(TArr(2), "s")), F(TPtr(TBytes, "s")), F(TPtr(Inner, "l")), F(TPtr(TSlice(U64), "l"))>>)
+PtrNilS  == TStruct(PtrKinds("s"))
+PtrNilL  == TStruct(PtrKinds("l"))
+PtrOpt   == TStruct(<<F(U64), FOpt(TPtr(TBool, "no")), FOpt(TPtr(U8, "no")), FOpt(TPtr(U16, "no")), FOpt(TPtr(U32, "no")),
+                      FOpt(TPtr(U64, "no")), FOpt(PBig), FOpt(TPtr(TBytes, "no")), FOpt(TPtr(TArr(2), "no")),
+                      FOpt(TPtr(TBytes, "no")), FOpt(TPtr(Inner, "no")), FOpt(TPtr(TSlice(U64), "no"))>>)
+\* the seeded example: struct{N uint64; Active *bool; Name string}
+PtrB     == TStruct(<<F(U64), F(TPtr(TBool, "no")), F(TBytes)>>)
+\* slices of multi-byte elements (allocation per decoded element, MC_RLPLists)
+SU64   == TSlice(U64)
+SArr32 == TSlice(TArr(32))
+SPtr   == TSlice(TPtr(Inner, "no"))
+SBig   == TSlice(TBig)
+
 IgA    == TStruct(<<F(U64), FIgn(U64), FOpt(U64), FOpt(U64)>>)
 IgB    == TStruct(<<FIgn(U64), F(U64), FIgn(U64), FIgn(TBool), FOpt(PBig), FIgn(U64), FOpt(U64), FIgn(U64)>>)
 IgT    == TStruct(<<FIgn(U64), F(U64), FIgn(U64), FTail(U64), FIgn(U64)>>)
@@ -81,7 +104,9 @@ Header   == TStruct(<<F(U64), F(TStruct(<<>>)), F(U64), F(U64), F(BlockID), F(Ad
 
 ScalarNames == <<"u8", "u16", "u32", "u64", "big", "bool", "bytes", "string", "arr1", "arr2", "arr20", "raw", "iface">>
 StructNames == <<"Inner", "Nested", "OptS", "OptP", "TailS", "NilS", "NilX", "PtrS", "Rows", "ArrU",
-                 "IgA", "IgB", "IgT", "IgN", "OptIn", "IgE", "OnlyOpt", "IgOnly">>
+                 "IgA", "IgB", "IgT", "IgN", "OptIn", "IgE", "OnlyOpt", "IgOnly",
+                 "pbool", "pu16", "pstr", "pInner", "PtrPlain", "PtrNil", "PtrNilS", "PtrNilL", "PtrOpt", "PtrB",
+                 "SU64", "SArr32", "SPtr", "SBig">>
 ChainNames  == <<"tx", "log", "receipt", "sreceipt", "blockinfo", "account", "slim", "header">>
 
 Schema(name) ==
@@ -95,6 +120,11 @@ Schema(name) ==
     [] name = "Rows" -> Rows [] name = "ArrU" -> ArrU
     [] name = "IgA" -> IgA [] name = "IgB" -> IgB [] name = "IgT" -> IgT [] name = "IgN" -> IgN
     [] name = "OptIn" -> OptIn [] name = "IgE" -> IgE [] name = "OnlyOpt" -> OnlyOpt [] name = "IgOnly" -> IgOnly
+    [] name = "pbool" -> TPtr(TBool, "no") [] name = "pu16" -> TPtr(U16, "no") [] name = "pstr" -> TPtr(TBytes, "no")
+    [] name = "pInner" -> TPtr(Inner, "no")
+    [] name = "PtrPlain" -> PtrPlain [] name = "PtrNil" -> PtrNil [] name = "PtrNilS" -> PtrNilS [] name = "PtrNilL" -> PtrNilL
+    [] name = "PtrOpt" -> PtrOpt [] name = "PtrB" -> PtrB
+    [] name = "SU64" -> SU64 [] name = "SArr32" -> SArr32 [] name = "SPtr" -> SPtr [] name = "SBig" -> SBig
     [] name = "tx" -> TxData [] name = "log" -> LogT [] name = "receipt" -> Receipt
     [] name = "sreceipt" -> SReceipt [] name = "blockinfo" -> BlockInfo [] name = "account" -> Account [] name = "slim" -> Slim
     [] name = "header" -> Header
